@@ -25,6 +25,10 @@ Act(p) == CASE Ev.from = "idle" /\ Ev.op = "ins" -> StartInsert(p, Ev.arg, Ev.h)
             [] Ev.from = "FP3" -> FP3(p) [] Ev.from = "FP4" -> FP4(p) [] Ev.from = "FP5" -> FP5(p)
             [] Ev.from = "I2" -> I2(p) [] Ev.from = "U1" -> U1(p) [] Ev.from = "U3" -> U3(p)
             [] Ev.from = "S1" -> S1(p) [] Ev.from = "S2" -> S2(p) [] Ev.from = "DS" -> DS(p)
+            [] Ev.from = "idle" /\ Ev.op = "itfirst" -> StartSeekFirst(p)
+            [] Ev.from = "idle" /\ Ev.op = "itseek" -> StartSeek(p, Ev.arg)
+            [] Ev.from = "idle" /\ Ev.op = "itnext" -> StartNext(p)
+            [] Ev.from = "IT0" -> IT0(p) [] Ev.from = "IN1" -> IN1(p) [] Ev.from = "IN2" -> IN2(p)
             [] OTHER -> FALSE
 Succ(w) == IF w[1] = -9 THEN T ELSE w[1]
 WordsOK(row) == LET id == row[1] ws == row[2] IN
@@ -35,6 +39,7 @@ Fresh == /\ nd' = [n \in Ids |-> IF n = H THEN [key |-> -1, h |-> Top, nx |-> [k
                            ELSE NoNode]
          /\ nalloc' = 0 /\ loc' = [p \in Procs |-> Idle] /\ nops' = [p \in Procs |-> 0]
          /\ ever' = [p \in Procs |-> [pres |-> FALSE, abs |-> FALSE]] /\ delwins' = [n \in Ids |-> 0]
+         /\ scan' = [p \in Procs |-> NoScan]
 TInit == l = 1 /\ drift = "" /\ Init
 TReset == /\ l <= N /\ Ev.e = "SlInit" /\ l' = l + 1 /\ UNCHANGED drift /\ Fresh
 Skip == /\ l <= N /\ ~IsStep /\ Ev.e # "SlInit" /\ l' = l + 1 /\ UNCHANGED <<vars, drift>>
